@@ -8,7 +8,12 @@ TEXT = {
  'C09': ('for every enumerated canonical byte string: b in asm(str(i)) and b in asm_att(att(i)); when no raw relative displacement or absolute numeric memory operand is involved, both renderings are given to the real GNU as (--32, Intel and AT&T mode) and its output must spec-decode to the same instruction', 'bounded; GNU as is an external function executed for real (batched), its answer compared through the spec decoder'),
  'C19': ('for every generated line: upper-case registers, lower-case size keywords, extra blanks/tabs, hexadecimal and signed numbers, index-first and displacement-first term order, disp[reg] form, st(0) for st, and the AT&T transliteration must yield the same SET of candidates', 'bounded metamorphic contract on asm/asm_att; the term-algebra proofs of DESIGN 5/C19 (dict_add/dict_sub) are not claimed'),
 }
+def _sse(run):
+    from checks import asmsse
+    asmsse.ob(run, 'C09')
+
 if __name__ == '__main__':
     sys.exit(asmfam.run_family('C09', sys.argv[1:], 'other', RULE + '; ' + TEXT['C09'][0], TEXT['C09'][1],
                                ['specs/x86dec.py (reference disassembler)', 'bounded/asmgen.py printers (audited against GNU as: 16475 of 16878 generated lines assemble to an encoding of the intended instruction)'] + (['/usr/bin/as (GNU assembler, executed)'] if 'C09' in ('C03', 'C09') else []),
-                               ['MMX/SSE, relative branches and far pointers are outside the generator', 'lines the assembler rejects with ValueError are not constrained']))
+                               ['MMX/SSE instructions are checked on 5 operand forms per table row and mandatory prefix with GNU as + objdump as the reference (checks/asmsse.py); relative branches and far pointers are outside the generator', 'lines the assembler rejects with ValueError are not constrained'],
+                               extra=_sse))
